@@ -30,12 +30,50 @@ def gen_case(entry, r, valid_only=False):
         words += gen_arg(k, r, valid_only)
     return ' '.join(words)
 
-def run_lines(cmd, lines, env=None):
-    p = subprocess.run(cmd, input=('\n'.join(lines) + '\n').encode(), stdout=subprocess.PIPE, stderr=subprocess.PIPE, env=env)
-    out = p.stdout.decode().split('\n')
+RUN_TIMEOUT = int(os.environ.get('VERIF_RUN_TIMEOUT', '900'))      # seconds per process
+MAX_EVENTS = 3                                                      # crashes / hangs tolerated per process stream
+
+def _run_once(cmd, lines, env, timeout):
+    try:
+        p = subprocess.run(cmd, input=('\n'.join(lines) + '\n').encode(), stdout=subprocess.PIPE, stderr=subprocess.PIPE, env=env, timeout=timeout)
+        out = p.stdout.decode().split('\n')
+        rc, err, timed_out = p.returncode, p.stderr.decode(), False
+    except subprocess.TimeoutExpired as ex:
+        out = (ex.stdout or b'').decode().split('\n')
+        rc, err, timed_out = -9, 'timeout after %ss' % timeout, True
     if out and out[-1] == '':
         out.pop()
-    return out, p.returncode, p.stderr.decode()
+    if timed_out and out:
+        out.pop()               # the last line may be partial
+    return out, rc, err, timed_out
+
+def run_lines(cmd, lines, env=None):
+    """one answer per case line, always.  A process that dies (abort, stack overflow: catch_unwind cannot help) or hangs
+    answers `PANIC` for the case it was working on — an abort or a non-terminating call is a panic-class failure of that
+    input — and the remaining cases are run in a fresh process, so later answers stay aligned with their cases."""
+    out, rc_all, err_all = [], 0, ''
+    rest = list(lines)
+    guard = 0
+    while rest:
+        o, rc, err, timed_out = _run_once(cmd, rest, env, RUN_TIMEOUT)
+        o = o[:len(rest)]
+        out += o
+        rc_all = rc_all or rc
+        err_all += err
+        if len(o) == len(rest):
+            break
+        # the case at index len(o) killed (or hung) the process: it answers PANIC; after MAX_EVENTS such events the remaining cases
+        # are answered SKIPPED (the check ignores them) so that a tree that hangs on a whole class of inputs still finishes
+        culprit = len(o)
+        if culprit < len(rest):
+            out.append('PANIC')
+            err_all += ' [process died or hung on: %s]' % rest[culprit]
+        rest = rest[culprit + 1:]
+        guard += 1
+        if guard >= MAX_EVENTS:
+            out += ['SKIPPED'] * len(rest)
+            break
+    return out, rc_all, err_all
 
 def run_parallel(cmd, lines, jobs=8):
     """split the case list into chunks and run `cmd` on each concurrently; output order preserved"""
